@@ -46,12 +46,51 @@ META = {
                    'statement of the conservation laws and of the ideal-gas sound speed in harness/C12.py.'),
 }
 
-# The framework hashes str(<z3 claim>) to count distinct claims.  z3's Python pretty-printer needs seconds per claim on the
-# terms of this property (most of an obligation's wall time); the C printer gives the same information in milliseconds.
-# Only affects the processes that import this harness (./check C12 forks one per obligation).
+# ------------------------------------------------------------------ solver dispatch of the C12 worker processes
+# Installed by the first build() of an obligation, i.e. only inside the worker process the runner forks for a C12 obligation
+# (importing this module changes nothing).
+#  * The framework hashes str(<z3 claim>) to count distinct claims.  z3's Python pretty-printer needs seconds per claim on the
+#    terms of this property (most of an obligation's wall time); the C printer gives the same information in milliseconds.
+#  * z3's nlsat decides most claims of this property in milliseconds with one of its two variable-ordering settings and needs
+#    14 s to minutes (or gives up) with the other -- which one is the good one changes from claim to claim.  Every query is
+#    therefore run as a small portfolio: alternately with nlsat.reorder on and off, in growing time slices, within the
+#    timeout the framework asked for.  z3 remains the only deciding step; only the dispatch changes.
 import z3 as _z3
-_z3.ExprRef.__str__ = lambda self: self.sexpr()
-_z3.ExprRef.__repr__ = lambda self: self.sexpr()
+from symx import smt as _smt
+
+_plain_solve = _smt.solve
+
+
+def _portfolio_solve(enc, assertions, timeout_s=30, label='', want_model=True, tactic=None):
+    if tactic is not None:
+        return _plain_solve(enc, assertions, timeout_s, label=label, want_model=want_model, tactic=tactic)
+    assertions = list(assertions)
+    budget = float(timeout_s)
+    spent, k, slice_ = 0.0, 0, min(2.0, max(0.5, budget / 6.0))
+    v = None
+    try:
+        while spent < budget - 0.05:
+            _z3.set_param('nlsat.reorder', k % 2 == 0)
+            to = min(slice_, budget - spent)
+            v = _plain_solve(enc, assertions, to, label=label, want_model=want_model)
+            spent += max(v.seconds, 0.01)
+            if v.status != 'unknown':
+                break
+            k += 1
+            if k % 2 == 0:
+                slice_ *= 3
+    finally:
+        _z3.set_param('nlsat.reorder', True)
+    v.seconds = spent
+    return v
+
+
+def _tweaks():
+    if _smt.solve is not _portfolio_solve:
+        _smt.solve = _portfolio_solve
+        _z3.ExprRef.__str__ = lambda self: self.sexpr()
+        _z3.ExprRef.__repr__ = lambda self: self.sexpr()
+
 
 RS = 'exactpack.solvers.radshocks.nED_radshocks'
 RK = 'exactpack.solvers.radshocks.radshock'
@@ -86,6 +125,7 @@ def sound_oracle(cx_or_none, gamma, Cv, Tref, symbolic):
 def tolerant(mk, default=1.0):
     """concrete replay: inputs that do not occur in any encoded term are absent from the solver's witness; they
     cannot influence the claim, any value will do"""
+    _tweaks()
     if Mode.symbolic(mk):
         return mk
 
@@ -495,7 +535,6 @@ def fake_make_2T_solution(self):
 
 
 NODE_NAMES = ('upstream', 'precursor', 'shock-', 'shock+', 'relaxation', 'downstream')
-VARIANTS = ('nED', 'LM_nED', 'FLD_1', 'FLD_2', 'FLD_poly', 'FLD_LP')
 
 
 class Rew(object):
@@ -530,23 +569,6 @@ class Rew(object):
         if not self.sym:
             return v
         return SymReal(self._apply(term_of(v)))
-
-    def powers(self, cx, tag, *values):
-        """new stage: every power with a non-constant exponent (cross sections sigma0 rho**a T**b) occurring in `values`
-        becomes a free POSITIVE variable -- the balances do not depend on the power laws, only on sigma_t != 0.
-        Returns the positivity hypothesis for `when'."""
-        if not self.sym:
-            return True
-        self.stage()
-        found = []
-        for v in values:
-            for n in T.postorder(self._apply(term_of(v), len(self.stages) - 1)):
-                if n.op == 'pow' and n.args[1].op != 'const' and n not in self.stages[-1]:
-                    self.stages[-1][n] = T.var('pw_%s_%d' % (tag, len(found)))
-                    found.append(self.stages[-1][n])
-        if not found:
-            return True
-        return SymBool(T.land(*[T.gt(f, T.ZERO) for f in found]))
 
 
 def near(cx, a, b, tol=1e-9):
@@ -760,6 +782,21 @@ class Flux(Obligation):
                     cx.eq('total energy flux (with radiation flux) at the %s node == at the %s end node' % (nm, NODE_NAMES[j]),
                           Re(flux), Re(fluxj), when=oke, scale=fsc)
             elif i < 3:
+                kk = None
+                if cx.symbolic and i:
+                    # the part of the flux term in which no quantity of THIS node occurs (found generically; in the present
+                    # code: the energy flux of the upstream equilibrium state that dPdx subtracts) is first proved equal to
+                    # the upstream value and then generalised to a free variable: a much smaller polynomial identity
+                    own = set(T.free_vars([term_of(Rn(v)) for v in (Pr, Er, Mi)])) | {'r', 'Lam%d' % i, 'Rlim%d' % i}
+                    cand = independent_subterms(term_of(Rn(flux)), own)
+                    if cand:
+                        kk = max(cand, key=lambda n_: T.size([n_]))
+                if kk is not None:
+                    cx.eq('node-independent part of the total energy flux term at the %s node == upstream value / C0' % nm,
+                          C0v * SymReal(kk), en_up, when=okP)
+                    Re = Rew(cx, Rn).stage()
+                    Re.stages[-1][kk] = T.var('k%d' % i)
+                    oke = okr & near(cx, C0v * SymReal(T.var('k%d' % i)), en_up)
                 cx.eq('total energy flux (with radiation flux) at the %s node == upstream value' % nm, Re(flux), en_up,
                       when=oke, scale=fsc)
             elif i < 5:
@@ -855,6 +892,24 @@ def respellings(root, target, tries=3):
             continue
         if all(abs(a - b) <= 1e-9 * max(1.0, abs(a)) for a, b in zip(vals, tv)):
             out.append(n)
+    return out
+
+
+def independent_subterms(root, node_vars, min_size=10):
+    """maximal sub-terms of `root' in which none of the variables `node_vars' occurs (at least min_size nodes)"""
+    out, seen = [], set()
+
+    def walk(n):
+        if id(n) in seen or n.op in ('const', 'var'):
+            return
+        seen.add(id(n))
+        if not (set(T.free_vars([n])) & node_vars):
+            if T.size([n]) >= min_size:
+                out.append(n)
+            return
+        for c in T.children(n):
+            walk(c)
+    walk(root)
     return out
 
 
@@ -1140,6 +1195,7 @@ class JumpIE(Obligation):
         self.timeout_s = 40
 
     def build(self, mk):
+        mk = tolerant(mk)
         ut, fn = H.mod(UT), H.mod(FN['ie'])
         prof = object.__new__(ut.IEShockProfile)
         prof.M0, prof.gamma, prof.rho0 = mk('M0'), mk('gamma'), mk('rho0')
